@@ -62,6 +62,7 @@ func runC01(c *Ctx) {
 			port, _ := c.StringConst("ccv.ProviderPortID")
 			got, isC := constString(arg(send, 3))
 			c.Check(isC && got == port && PCall("pk.Keeper.GetCCVTimeoutPeriod", -1, nil)(arg(send, 5)), fk(f, "port-and-timeout"), send, "sent from the provider port with the CCV timeout period parameter; found "+describe(arg(send, 3))+", "+describe(arg(send, 5)))
+			checkParamGetters(c, "pk", "GetCCVTimeoutPeriod", "GetBlocksPerEpoch")
 		}
 	}
 
@@ -217,6 +218,7 @@ func runC01(c *Ctx) {
 	checkAccessorAgreement(c, "ck", "PendingChangesKey", "CrossChainValidatorKey", "ProviderChannelIDKey", "InitialValSetKey", "InitGenesisHeightKey", "PreCCVKey", "PrevStandaloneChainKey")
 	checkAccessorAgreement(c, "pk", "PendingVSCsKey", "ConsumerValidatorKey")
 	checkSetterValues(c, "ck", []string{"PendingChanges", "CCValidator", "ProviderChannel"})
+	checkCollectors(c, "ck", "GetAllCCValidator")
 
 	c.Rule("R6", "apply once: consumer EndBlock applies GetPendingChanges().ValidatorUpdates, returns exactly the apply's result, and DeletePendingChanges lies on every path from the apply to the return; reward distribution and packet sending precede it", 5)
 	if f := c.Fn("consumer.AppModule.EndBlock"); f != nil {
